@@ -46,6 +46,12 @@ func SendAccountDebitRequest(
 		return nil, fmt.Errorf("Marshal CCR Failed: %s\n", err)
 	}
 
+	// discard the late answer of an earlier request that timed out
+	select {
+	case <-ue.AcctChan:
+	default:
+	}
+
 	_, err = msg.WriteTo(conn)
 	if err != nil {
 		return nil, fmt.Errorf("Failed to send message from %s: %s\n",
@@ -69,6 +75,12 @@ func HandleCCA(abmfChan chan *diam.Message) diam.HandlerFunc {
 	return func(c diam.Conn, m *diam.Message) {
 		logger.AcctLog.Tracef("Received CCA from %s", c.RemoteAddr())
 
-		abmfChan <- m
+		select {
+		case abmfChan <- m:
+		default:
+			// the request this answer belongs to has given up and an undelivered answer
+			// is already pending: drop it rather than block the connection's handler for ever
+			logger.AcctLog.Warnf("Drop CCA from %s: nobody is waiting for it", c.RemoteAddr())
+		}
 	}
 }
